@@ -4,7 +4,7 @@ helper lemmas are in Lemmas*.lean. `H` is the keyed hash (SipHash-2-4 under the 
 arbitrary function; `dsha` is double-SHA256 as an arbitrary function.
 -/
 import BV.C20.LemmasSer
-import BV.C20.LemmasPmt
+import BV.C20.LemmasPmtRoot
 import BV.Generated.C20
 namespace BV.C20
 open Spec
@@ -179,18 +179,25 @@ theorem filter_header_chain_seq (dsha : Bytes → Bytes) (fs : List Filter) (pre
 
 /-! ### merkle block (partial merkle tree), node hash `hh` abstract -/
 
+/-- The recursive `calcHash(height, 0)` of merkleblock.go is the Bitcoin merkle root (level-by-level
+    pairing, an odd last node paired with itself) — the root in the block header. -/
+theorem pmt_root_is_merkle_root {α : Type} (hh : α → α → α) (dflt : α) (leaves : List α)
+    (hne : leaves ≠ []) (hn : leaves.length ≤ 2 ^ 64) :
+    Pmt.calcHash hh dflt leaves (Pmt.treeHeight leaves.length) 0 = Pmt.merkleRoot hh dflt leaves :=
+  Pmt.calcHash_root hh dflt leaves hne hn
+
 /-- BIP37 extraction of the merkle block built by `NewMerkleBlock` (for ANY number of transactions
     n ≥ 1 — odd levels, n = 1, … — and ANY matched subset) succeeds and yields exactly the matched
-    transactions (index and txid, in block order) and the root hash `calcHash(height, 0)`. -/
+    transactions (index and txid, in block order) under the block's merkle root. -/
 theorem pmt_extract_build {α : Type} (hh : α → α → α) (dflt : α) (leaves : List α) (matched : List Bool)
     (hne : leaves ≠ []) (hlen : matched.length = leaves.length) (hn : leaves.length ≤ 2 ^ 64) :
     Pmt.extract hh leaves.length (Pmt.packFlags (Pmt.newMerkleBlock hh dflt leaves matched).bits)
         (Pmt.newMerkleBlock hh dflt leaves matched).hashes
-      = some (Pmt.calcHash hh dflt leaves (Pmt.treeHeight leaves.length) 0,
+      = some (Pmt.merkleRoot hh dflt leaves,
               ((List.range leaves.length).filter (fun i => matched.getD i false)).map
                 (fun i => (i, leaves.getD i dflt))) := by
   rw [Pmt.extract_newMerkleBlock hh dflt leaves matched hne hlen,
-    Pmt.matchedUnder_root dflt leaves matched hlen hn]
+    Pmt.matchedUnder_root dflt leaves matched hlen hn, Pmt.calcHash_root hh dflt leaves hne hn]
 
 /-- the index list `NewMerkleBlock` returns is the same matched set -/
 theorem pmt_matched_indices {α : Type} (hh : α → α → α) (dflt : α) (leaves : List α) (matched : List Bool) :
